@@ -9,7 +9,7 @@ theorem stepOK_all (w : World) (hw : WFW w) (op : Op) (hs : OpSafe w op) : StepO
   | close fi => exact stepOK_close w hw fi hs
   | startaccess h fi tag ref wr app => exact stepOK_startaccess w hw h fi tag ref wr app hs
   | startwrite h fi tag ref len => exact stepOK_startwrite w hw h fi tag ref len hs
-  | setlength h len => exact stepOK_setlength w hw h len hs
+  | setlength h len => exact stepOK_setlength w hw h len
   | hlcreate h fi tag ref blen nblk => exact stepOK_hlcreate w hw h fi tag ref blen nblk hs
   | hlconvert h blen nblk => exact stepOK_hlconvert w hw h blen nblk hs
   | setblockinfo h blen nblk => exact stepOK_setblockinfo w hw h blen nblk
